@@ -1,5 +1,5 @@
 """C01 -- scheduler core (work in progress: metadata filled in below)."""
-from props.common import other_tasks, contract_tasks, lemma_tasks, TRUSTED_CORE, SCHED_ASSUMPTIONS
+from props.common import other_tasks, contract_tasks, lemma_tasks, TRUSTED_CORE, SCHED_ASSUMPTIONS, CLOSURE_ASSUMPTION
 
 PROPERTY = "C01"
 
@@ -12,12 +12,12 @@ def tasks(tier):
             + contract_tasks("contracts.groups", "C11", tier=tier) + lemma_tasks("contracts.groups", "C11")
             # (tiered time arithmetic: '+' and '<' on times and delays, served under C08)
             + contract_tasks("contracts.tiered_time", "C08") + other_tasks("contracts.connect_bounded", "C01", "bounded"))
-            + other_tasks("contracts.closure", "C01", "bounded"))
+            + contract_tasks("contracts.closure_ded", "C01") + lemma_tasks("contracts.closure_ded", "C01") + other_tasks("contracts.closure", "C01", "bounded"))
 
 
 TRUSTED_BASE = TRUSTED_CORE
-ASSUMPTIONS = SCHED_ASSUMPTIONS
-NOT_COVERED = ["'finished (step and output retrieval)' is the ghost field in_step / the BG ghost invariant of the model, not an observation of a real run", 'the closure cache_triggering_ancestors (used by advance_progress for event-triggered consumers) is checked by a bounded stand-in only']
+ASSUMPTIONS = SCHED_ASSUMPTIONS + [CLOSURE_ASSUMPTION]
+NOT_COVERED = ["'finished (step and output retrieval)' is the ghost field in_step / the BG ghost invariant of the model, not an observation of a real run", 'the link between the proved closure contract of cache_triggering_ancestors (abstract delay algebra) and the trig_static facts assumed by the scheduler invariant is argued, not mechanised']
 LEVEL_TEXT = "Ghost assertions C01(a)/(b) at BEGIN (the point where a step's inputs are read) are proved from a global invariant (I0-I5, J', K) that every atomic region of sim_process and its coroutines, advance_progress, schedule_step and notify_dependencies preserve -- for any number of simulators, any topology, any reply values and every interleaving (cut rule at each await); connect_one is proved to store the MINIMUM delay per simulator pair, which is what the wait uses. The delay of a connection across group boundaries (group_path, connect_interval) and the arithmetic of tiered times (C08 contracts) are part of this check."
 DESIGN_REF = "DESIGN.md section 8 (C01)"
 LEVEL_NOTE = 'Proved for any number of simulators, any topology, any reply values and every interleaving, under the listed assumptions (evidence: assumptions, coverage.trusted_base). Trusted: pyvc encoder, the rely/guarantee meta-theorem, assumed contracts of asyncio/heapq, the time/delay algebra axioms (C08 provenance), static connection-table facts, z3/cvc5.'
